@@ -850,7 +850,8 @@ def merge(*signatures):
         TypeError: 'alpha' parameter is positional only, but was passed as a keyword
 
     """
-    assert signatures, "Expected at least one signature"
+    if not signatures:
+        raise ValueError("Expected at least one signature")
     ret = sort_params(signatures[0], sources=True, _stacklevel=1)
     for i, sig in enumerate(signatures[1:], 1):
         sorted_params = sort_params(sig, sources=True, _stacklevel=1)
@@ -970,7 +971,8 @@ def embed(*signatures, use_varargs=True, use_varkwargs=True, _stacklevel=0):
         ...     ))
         (self, *args, keyword, **kwargs)
     """
-    assert signatures
+    if not signatures:
+        raise ValueError("Expected at least one signature")
     ret = sort_params(signatures[0], sources=True, _stacklevel=_stacklevel + 1)
     for i, sig in enumerate(signatures[1:], 1):
         try:
